@@ -31,7 +31,12 @@ RULE = ("unit: each of the 657 names alone, all 657 together, the full table, ra
         "'black', duplicates and (rarely) invalid names, shuffled, resolved through an explicit list / the context "
         "variable / no context; docs: sentinel-tagged single-section, multi-section (2..4 sections, own palettes) and "
         "figure documents with colours (text, background, border) and fonts on title, subline, page header/footer, "
-        "column headers, body (scalar / per column / per row / matrix), footnote, source; non-trivial = at least one "
+        "column headers, body (scalar / per column / per row / matrix), footnote, source; plus documents whose coloured "
+        "components have NO text of their own: column headers filled from the column names (as_colheader) with text / "
+        "background / border colours in every combination -- alone, beside headers with text, two per section, not "
+        "rendered (as_colheader=False), single-section (one page, paged, page_by) and multi-section (nested per section, "
+        "flat) --, the page header with its default text, text components that print nothing; about a third of these "
+        "documents have no other colour, most take the colours from a palette of their own; non-trivial = at least one "
         "non-default colour resolved; distinct by (kind, colour table, references)")
 TRUSTED = [
     "Lean 4.33 kernel; axioms ⊆ {propext, Classical.choice, Quot.sound} (audited per theorem on every run)",
@@ -56,7 +61,11 @@ MANIFEST = dict(
          "under several PYTHONHASHSEED values; the Lean oracle checkRefs judges the implementation's parsed output.",
     note="Border colours are collected but never printed by the unchanged code (D11, C09); C12 only checks that a "
          "\\brdrcf, if present, resolves. The element→requested-colour mapping comes from the harness' reading of the "
-         "spec; row-varying attributes are used on single-page documents only.",
+         "spec; row-varying attributes are used on single-page documents only. A column header without text is filled "
+         "with the displayed column names (sentinel-named columns) and judged like a header with text; when two "
+         "text-less headers of a section print the same name, the k-th occurrence on a page is the k-th header's. "
+         "Components that print nothing (title / subline / footnote / source / page footer without text, a text-less "
+         "header under as_colheader=False) only take part in the collection correspondence.",
     technique="Lean 4 proof (lists, permutations, stable sort; decide +kernel on the generated table) + differential "
               "correspondence model/implementation + Lean-defined oracle on the implementation's output",
     design="7/C12",
@@ -634,6 +643,220 @@ def gen_doc(rng, names, groups):
     return dict(kind=kind, spec=spec, want=want, elements=elements, counts=counts, border_cols=border_cols, k=k)
 
 
+# ------------------------------------------------------------------ observation level: components WITHOUT text of their own
+
+PAGE_HEADER_DEFAULT_TOKENS = ["Page", "\u27e6PAGE\u27e7", "of", "\u27e6NUMPAGES\u27e7"]  # runs of the default page-header text
+
+
+def gen_auto_header(rng, pal, sec, k, cols, want, elements, bcols, counts, rendered=True, occ=None):
+    """a column header WITHOUT text of its own.  With as_colheader=True (the default of the body) PageRenderer fills it
+    with the displayed column names of the section's frame and prints them with THIS object's formatting, so its
+    text / background / border colours are used like those of a header with text.  cols: the displayed column names
+    (sentinels).  At least one colour attribute is set, mostly to a non-default colour.  occ: sentinel -> list of
+    requests, for a section with several text-less headers (the k-th occurrence of a name belongs to the k-th one)."""
+    nc = len(cols)
+    mk = lambda: pal.one(blank=0.08)  # noqa: E731
+
+    def attr(f):
+        r = rng.random()
+        if r < 0.45 or nc == 1:
+            return f() if nc > 1 or rng.random() < 0.6 else [f()]
+        return [f() for _ in range(nc)]
+
+    which = rng.choice(["tc", "bg", "bc", "tc+bg", "tc+bc", "bg+bc", "all", "all"])
+    counts.append("auto_hdr_attrs:" + which)
+    tc = attr(mk) if which in ("tc", "tc+bg", "tc+bc", "all") else None
+    bg = attr(mk) if which in ("bg", "tc+bg", "bg+bc", "all") else None
+    ft = attr(lambda: rng.randint(1, 10)) if rng.random() < 0.4 else None
+    kw = {}
+    for key, v in (("text_color", tc), ("text_background_color", bg), ("text_font", ft)):
+        if v is not None:
+            kw[key] = v
+    if which in ("bc", "tc+bc", "bg+bc", "all"):
+        for f in rng.sample(BORDER_FIELDS, rng.randint(1, 4)):
+            kw[f] = attr(mk)
+            bcols.extend(kw[f] if isinstance(kw[f], list) else [kw[f]])
+        if rng.random() < 0.5:  # make sure the coloured side is drawn
+            kw["border_bottom"] = "single"
+    if not rendered:
+        return kw
+    for j, s in enumerate(cols):
+        req = [pick(tc, 0, j, False) or "", pick(bg, 0, j, False) or "", pick(ft, 0, j, False) or 1]
+        if occ is None:
+            want[s] = req
+            elements.append([s, "header", (sec, k), 0, j])
+        else:
+            occ.setdefault(s, []).append(req)
+            want.setdefault(s, req)
+            elements.append([s, "header", (sec, k), 0, j, len(occ[s]) - 1])
+    return kw
+
+
+def gen_textless_comp(rng, pal, role, want, elements, counts):
+    """title / subline / footnote / source / page header / page footer constructed WITHOUT text but with colours.  The
+    page header has a default text (page x of y) that is printed with the colours given; the others print nothing (their
+    colours are collected all the same: entries nobody refers to)."""
+    tc = pal.one(blank=0.08) if rng.random() < 0.8 else None
+    bg = pal.one(blank=0.08) if tc is None or rng.random() < 0.4 else None
+    ft = rng.choice([None, rng.randint(1, 10)])
+    kw = {}
+    for k, v in (("text_color", tc), ("text_background_color", bg), ("text_font", ft)):
+        if v is not None:
+            kw[k] = v if rng.random() < 0.7 else [v]
+    if role == "page_header":
+        counts.append("textless:page_header(default text)")
+        for t in PAGE_HEADER_DEFAULT_TOKENS:
+            want[t] = [tc or "", bg or "", ft or 1]
+            elements.append([t, role, 0, 0, 0])
+    else:
+        counts.append("textless:prints-nothing:" + role)
+    return kw
+
+
+def gen_doc_auto(rng, names, groups):
+    """documents whose coloured components have no text of their own: column headers filled from the column names
+    (single-section: alone, next to headers with text, two of them, not rendered; multi-section: nested and flat), the
+    page header with its default text, text components that print nothing.  In about a third of the documents these
+    are the ONLY colours of the document; mostly they come from a palette of their own."""
+    kind = rng.choice(["table"] * 4 + ["paged", "pageby"] + ["multi"] * 4 + ["figure"])
+    want, elements, counts, border_cols, occ = {}, [], [], [], {}
+    only = rng.random() < 0.35
+    k = 0 if only else rng.choice([1, 2, 3, 4, 6])
+    pal = Palette(rng, names, groups, max(1, k))
+    if k == 0:
+        pal.cols = ["black"]
+        counts.append("auto:only-colours-of-the-document")
+
+    def own():
+        return Palette(rng, names, groups, rng.randint(1, 3)) if only or rng.random() < 0.7 else pal
+
+    spec = dict(kind="table")
+    for role in ("title", "subline", "page_header", "page_footer"):
+        r = rng.random()
+        p_less = 0.75 if role == "page_header" else 0.5
+        if kind == "figure" and role == "page_header":
+            r = 0.45
+        if r < 0.4:
+            spec[role] = gen_text_comp(rng, pal, role, want, elements)
+        elif r < p_less:
+            spec[role] = gen_textless_comp(rng, own(), role, want, elements, counts)
+    out = dict(kind=kind + "+textless", spec=spec, want=want, elements=elements, counts=counts, border_cols=border_cols,
+               k=k, occ=occ)
+    if kind == "figure":
+        nfig = rng.randint(1, 2)
+        spec["kind"] = "figure"
+        spec["figure"] = dict(files=[dict(name=f"f{i}.png", hex=tiny_png(rng.randint(1, 3), rng.randint(1, 3)).hex())
+                                     for i in range(nfig)], fig_width=1.0, fig_height=1.0, _as_list=True)
+        for role in ("footnote", "source"):
+            r = rng.random()
+            if r < 0.4:
+                spec[role] = gen_text_comp(rng, pal, role, want, elements, allow_table=False, bcols=border_cols)
+            elif r < 0.55:
+                spec[role] = gen_textless_comp(rng, own(), role, want, elements, counts)
+                spec[role]["as_table"] = False  # (a figure document accepts no table-rendered footnote / source)
+        return out
+    for role in ("footnote", "source"):
+        r = rng.random()
+        if r < 0.35:
+            spec[role] = gen_text_comp(rng, pal, role, want, elements, bcols=border_cols)
+        elif r < 0.45:
+            spec[role] = gen_textless_comp(rng, own(), role, want, elements, counts)
+
+    def section_headers(sec, cols, layouts):
+        """header objects of one section; at least one without text"""
+        lay = rng.choice(layouts)
+        counts.append("auto_hdr:" + lay)
+        nc = len(cols)
+        if lay == "auto":
+            return [gen_auto_header(rng, own(), sec, 0, cols, want, elements, border_cols, counts)]
+        if lay == "text+auto":
+            h0 = gen_header(rng, pal, sec, 0, 1, want, elements, border_cols)
+            h0["col_rel_width"] = [1]
+            return [h0, gen_auto_header(rng, own(), sec, 1, cols, want, elements, border_cols, counts)]
+        if lay == "auto+text":
+            return [gen_auto_header(rng, own(), sec, 0, cols, want, elements, border_cols, counts),
+                    gen_header(rng, pal, sec, 1, nc, want, elements, border_cols)]
+        if lay == "auto+auto":
+            return [gen_auto_header(rng, own(), sec, i, cols, want, elements, border_cols, counts, occ=occ)
+                    for i in range(2)]
+        raise AssertionError(lay)
+
+    if kind == "multi":
+        nsec = rng.randint(2, 4)
+        nc = rng.randint(1, 3)
+        spec["kind"] = "multi"
+        spec["df"], spec["body"] = [], []
+        nested = rng.random() < 0.7
+        counts.append("auto_multi:nested" if nested else "auto_multi:flat(first section only)")
+        auto_secs = set(s for s in range(nsec) if rng.random() < 0.6) or {rng.randrange(nsec)}
+        hdrs = []
+        for s in range(nsec):
+            spal = pal if only or rng.random() < 0.3 else Palette(rng, names, groups, rng.randint(1, 4))
+            nr = rng.randint(1, 4)
+            kw, rows, bc = gen_body(rng, spal, s, nr, nc, want, elements, True, counts)
+            border_cols += bc
+            auto = (s in auto_secs) if nested else s == 0
+            cols = [f"n{s}c{j}z" if auto else f"c{j}" for j in range(nc)]
+            spec["df"].append(dict(cols=cols, rows=rows))
+            spec["body"].append(kw)
+            if nested:
+                if auto:
+                    hdrs.append(section_headers(s, cols, ["auto"] * 6 + ["text+auto", "auto+text", "auto+auto"]))
+                else:
+                    hdrs.append([gen_header(rng, spal, s, 0, nc, want, elements, border_cols)] if rng.random() < 0.6 else [None])
+            elif auto:
+                hdrs = section_headers(0, cols, ["auto"] * 4 + ["auto+text", "text+auto"])
+        spec["headers"] = hdrs
+        return out
+    # single section
+    nc = rng.randint(1, 4)
+    cols = [f"n0c{j}z" for j in range(nc)]
+    if kind == "table":
+        nr = rng.randint(1, 6)
+        kw, rows, bc = gen_body(rng, pal, 0, nr, nc, want, elements, True, counts)
+        dfcols = cols
+    elif kind == "paged":  # the header row is repeated on every page
+        nr = rng.randint(8, 24)
+        kw, rows, bc = gen_body(rng, pal, 0, nr, nc, want, elements, False, counts)
+        dfcols = cols
+        spec["page"] = dict(nrow=rng.randint(6, 10))
+    else:  # page_by: the header shows the displayed columns (the page_by column is removed)
+        nr = rng.randint(2, 8)
+        tc, bg, ft = rng.choice([None, pal.one()]), rng.choice([None, pal.one()]), rng.choice([None, rng.randint(1, 10)])
+        kw = {k_: v for k_, v in (("text_color", tc), ("text_background_color", bg), ("text_font", ft)) if v is not None}
+        kw["page_by"] = ["g"]
+        keys = docgen.run_keys(rng, nr, ["gAz", "gBz", "gCz"], 1, 4)
+        rows = []
+        for i in range(nr):
+            row = [keys[i]]
+            for j in range(nc):
+                s = f"s0r{i}c{j}z"
+                row.append(s)
+                want[s] = [tc or "", bg or "", ft or 1]
+                elements.append([s, "body", 0, 0, 0])
+            rows.append(row)
+        for g in set(keys):
+            want[g] = [tc or "", bg or "", ft or 1]
+            elements.append([g, "body", 0, 0, 0])
+        dfcols = ["g"] + cols
+        bc = []
+        counts.append("body_tc:scalar(page_by)")
+    border_cols += bc
+    spec["df"] = dict(cols=dfcols, rows=rows)
+    spec["body"] = kw
+    if kind == "table" and rng.random() < 0.1:
+        # as_colheader=False: the text-less header is not rendered at all; its colours are collected, nobody uses them
+        kw["as_colheader"] = False
+        counts.append("auto_hdr:not-rendered(as_colheader=False)")
+        spec["headers"] = [gen_auto_header(rng, own(), 0, 0, cols, want, elements, border_cols, counts, rendered=False)]
+        if rng.random() < 0.5:
+            spec["headers"].append(gen_header(rng, pal, 0, 1, nc, want, elements, border_cols))
+        return out
+    layouts = ["auto"] * 5 + ["text+auto"] * 2 + ["auto+text"] + (["auto+auto"] * 2 if kind == "table" else [])
+    spec["headers"] = section_headers(0, cols, layouts)
+    return out
+
+
 # ------------------------------------------------------------------ observation level: worker (fresh process)
 
 def _dump_doc(doc):
@@ -777,11 +1000,20 @@ def run_in_fresh_processes(cases, hashseeds):
 
 # ------------------------------------------------------------------ observation level: judgement
 
+def request_of(case, el):
+    """[text colour, background, font] requested for an element; el[5] = which of the section's text-less headers it
+    belongs to when several of them print the same column name"""
+    if len(el) > 5:
+        return case["occ"][el[0]][el[5]]
+    return case["want"][el[0]]
+
+
 def resolve_elements(case, ob):
     """elements of the generator → [kind, index, r, c, font] for the model; None when the component is absent"""
     out = []
-    for sent, role, key, r, c in case["elements"]:
-        font = case["want"][sent][2]
+    for el in case["elements"]:
+        sent, role, key, r, c = el[:5]
+        font = request_of(case, el)[2]
         if role == "body":
             out.append(["bodies", key, r, c, font])
         elif role == "header":
@@ -801,10 +1033,13 @@ def doc_requests(case, ob):
     model = dict(op="c12_doc", doc=ob["doc"], queries=[], elements=elems)
     uses, owners, fuses, fowners = [], [], [], []
     seen = {}
+    occ = case.get("occ") or {}
     for t, f, cf, cb, pat in ob["runs"]:
         if t in want:
             seen[t] = seen.get(t, 0) + 1
-            tc, bg, ft = want[t]
+            # a column name printed by several text-less headers of its section: they are rendered in their order, on
+            # every page of the section
+            tc, bg, ft = occ[t][(seen[t] - 1) % len(occ[t])] if t in occ else want[t]
             uses += [[cf or 0, tc], [cb or 0, bg], [pat or 0, bg]]
             owners += [(t, "\\cf", cf), (t, "\\cb", cb), (t, "\\chcbpat", pat)]
             fuses.append([f if f is not None and f >= 0 else 10 ** 6, ft])
@@ -859,22 +1094,25 @@ def judge_doc(res, case, ob, m, o, bk, rgbs_of):
     if mrgb != ob["entries"] or bool(m["rows"]) != ob["has_table"]:
         res.disagree(case, f"colour table {ob['entries']} != model {mrgb}")
         return
-    runs = {}
+    runs, runs_seq = {}, {}
     for t, f, cf, cb, pat in ob["runs"]:
         runs.setdefault(t, set()).add((f, cf, cb, pat))
+        runs_seq.setdefault(t, []).append((f, cf, cb, pat))
     expected_absent = case.get("may_be_absent", ())
-    for (sent, role, key, r, c), me in zip(case["elements"], m["elems"]):
+    for el, me in zip(case["elements"], m["elems"]):
+        sent, role, key, r, c = el[:5]
         if sent not in runs:
             if sent in expected_absent:
                 continue
             res.disagree(case, f"element {sent} ({role}) is not in the output; model prints it with {me}")
             return
         mine = (me["f"], me["cf"], me["cb"], me["cb"])
-        if runs[sent] != {mine}:
-            res.disagree(case, f"element {sent} ({role}): implementation (f, cf, cb, chcbpat) {sorted(runs[sent], key=str)}"
+        got = runs[sent] if len(el) <= 5 else set(runs_seq[sent][el[5]::len(case["occ"][sent])])
+        if got != {mine}:
+            res.disagree(case, f"element {sent} ({role}): implementation (f, cf, cb, chcbpat) {sorted(got, key=str)}"
                                f" != model {mine} (model values tc={me['tc']!r} bg={me['bg']!r})")
             return
-        w = want[sent]
+        w = request_of(case, el)
         if (me["tc"] or "") != w[0] or (me["bg"] or "") != w[1]:
             res.disagree(case, f"element {sent}: model broadcasting gives ({me['tc']!r}, {me['bg']!r}), "
                                f"spec reading gives ({w[0]!r}, {w[1]!r})")
@@ -891,6 +1129,8 @@ def run_docs(res, tier, names, groups, corpus=()):
     cases = [dict(c) for c in corpus]
     for k in range(ndocs):
         cases.append(gen_doc(sub_rng(res.seed, "c12doc", k), names, groups))
+    for k in range(240 if tier == "quick" else 2500):  # components without text of their own
+        cases.append(gen_doc_auto(sub_rng(res.seed, "c12auto", k), names, groups))
     nproc = common.NCPU if tier == "quick" else 4 * common.NCPU
     hrng = sub_rng(res.seed, "c12hash")
     hashseeds = [hrng.randint(1, 4_000_000_000) for _ in range(nproc)]
@@ -901,6 +1141,8 @@ def run_docs(res, tier, names, groups, corpus=()):
     for c, ob in zip(cases, obs):
         case = dict(level="doc", kind=c["kind"], spec=c["spec"], want=c["want"], elements=c["elements"],
                     border_cols=c["border_cols"], hashseed=ob.get("hashseed"))
+        if c.get("occ"):
+            case["occ"] = c["occ"]
         res.count("doc:" + c["kind"])
         res.count(f"doc_colours:{c.get('k', '?')}")
         for lab in c.get("counts", []):
@@ -910,7 +1152,7 @@ def run_docs(res, tier, names, groups, corpus=()):
             res.case(case, None)
             res.disagree(case, f"document did not encode/read back: {ob.get('status')} {ob.get('exc')} {ob.get('msg')}")
             continue
-        model, oracle, bk = doc_requests(c, ob)
+        model, oracle, bk = doc_requests(case, ob)
         reqs += [model, oracle]
         keep.append((case, c, ob, bk))
     drv = common.driver_batch(reqs)
@@ -939,9 +1181,9 @@ def load_corpus():
             c = json.loads(f.read_text())
             if c.get("level") == "doc":
                 out.append(dict(kind=c.get("kind", "table"), spec=c["spec"], want=c["want"],
-                                elements=[[e[0], e[1], tuple(e[2]) if isinstance(e[2], list) else e[2], e[3], e[4]]
+                                elements=[[e[0], e[1], tuple(e[2]) if isinstance(e[2], list) else e[2]] + list(e[3:])
                                           for e in c["elements"]],
-                                border_cols=c.get("border_cols", []), counts=[], k="corpus"))
+                                border_cols=c.get("border_cols", []), occ=c.get("occ") or {}, counts=[], k="corpus"))
     return out
 
 
@@ -961,7 +1203,8 @@ def run(res: common.Result, build) -> int:
                     "C12_order_independent hold for every list of colour names (any length, any order); C12_document / "
                     "C12_border_refs lift them to every constructed document on the three encoding paths, for every "
                     "enumeration of the collected set; C12_fonts covers the ten fonts; C12_full_table the no-context "
-                    "route. Facts about the 657-row table are decided by the kernel on the table regenerated from /repo.")
+                    "route; C12enc_header_cell / C12enc_auto_header_cell: every reference of a column header row, with text "
+                    "of its own or filled from the column names. Facts about the 657-row table are decided by the kernel on the table regenerated from /repo.")
 
 
 def replay(payload) -> int:
@@ -969,8 +1212,9 @@ def replay(payload) -> int:
     tmp = common.Result("C12", "quick", 0)
     if case.get("level") == "doc":
         c = dict(kind=case.get("kind"), spec=case["spec"], want=case["want"],
-                 elements=[[e[0], e[1], tuple(e[2]) if isinstance(e[2], list) else e[2], e[3], e[4]] for e in case["elements"]],
-                 border_cols=case.get("border_cols", []))
+                 elements=[[e[0], e[1], tuple(e[2]) if isinstance(e[2], list) else e[2]] + list(e[3:])
+                           for e in case["elements"]],
+                 border_cols=case.get("border_cols", []), occ=case.get("occ") or {})
         hs = case.get("hashseed") or "0"
         ob = run_in_fresh_processes([c], [hs])[0]
         print("status:", ob["status"], ob.get("exc", ""), ob.get("msg", ""))
@@ -983,9 +1227,12 @@ def replay(payload) -> int:
             print("colour table read back:", ob["entries"])
             print("model table           :", [None] + [r["rgb"] for r in (m["rows"] or [])])
             print("collected (impl order):", ob["collected_order"])
+            nth = {}
             for t, f, cf, cb, pat in ob["runs"]:
                 if t in c["want"]:
-                    print(f"  {t}: \\f{f} \\cf{cf} \\cb{cb} \\chcbpat{pat}   requested {c['want'][t]}")
+                    nth[t] = nth.get(t, 0) + 1
+                    req = c["occ"][t][(nth[t] - 1) % len(c["occ"][t])] if t in c["occ"] else c["want"][t]
+                    print(f"  {t}: \\f{f} \\cf{cf} \\cb{cb} \\chcbpat{pat}   requested {req}")
             judge_doc(tmp, case, ob, m, o, bk, rgbs_of)
         else:
             tmp.disagree(case, "did not encode")
